@@ -49,7 +49,7 @@ def server() -> RefServer:
 
 
 def shards(tier: str, seed: int) -> list[dict]:
-    n = 60 if tier == "quick" else 1500
+    n = 150 if tier == "quick" else 2500
     return [{"count": n} for _ in range(16)]
 
 
